@@ -24,6 +24,7 @@ Record hobs := mk_hobs {
 }.
 
 Record case := mk_case {
+  c_inmodel : bool;        (* false: a regression input using an operation outside the model (spec only) *)
   c_hist : list step;
   c_fins : list fobs;
   c_final : list hobs
@@ -86,6 +87,7 @@ Fixpoint all2b {A B} (f : A -> B -> bool) (a : list A) (b : list B) : bool :=
   end.
 
 Definition model_agrees (c : case) : bool :=
+  negb (c_inmodel c) ||
   let st := run (c_hist c) in
   all2b out_eqb (st_outs st) (c_fins c)
   && list_eqb hobs_eqb (model_final st) (c_final c).
